@@ -3,7 +3,7 @@
 # Applies the patch to /repo's working tree, runs the command from /verif, and always undoes the
 # patch afterwards (git apply -R). Used for sensitivity runs against seeded changes; never commits.
 set -u
-P="$1"; shift
+P="$(cd "$(dirname "$1")" && pwd)/$(basename "$1")"; shift
 cd "$(dirname "$0")/.."
 if ! git -C /repo diff --quiet; then echo "with_patch: /repo working tree is dirty, refusing" >&2; exit 2; fi
 git -C /repo apply "$P" || { echo "with_patch: patch does not apply" >&2; exit 2; }
